@@ -227,3 +227,39 @@ def config_identity(U, size):
     same = And(*[l1[i] == l2[i] for i in offs])
     eq = o1.value == o2.value
     U.ensures("equal configuration words <=> same configuration key", Eq(bool(eq) if not isinstance(eq, bool) else eq, bool(same) if not isinstance(same, bool) else same))
+
+
+@unit("C28", covers=[(AXML, "ARSCParser.__init__"), (AXML, "ARSCParser._analyse"), (AXML, "ARSCParser.get_res_configs")], level="bounded",
+      params=[{"form": f} for f in ("offset16", "plain", "sparse")], samples=1,
+      note="one type chunk with 9000 sixteen-byte entries (entry data > 128 KiB): 16-bit entry offsets use their whole unsigned "
+           "range (stored value >= 0x8000), sparse indices / 32-bit offsets likewise beyond 2^15 words")
+def large_type_chunk(U, form):
+    m = U.mod(AXML)
+    n = 9000
+    U.drawn.update({"form": form})
+    entries = {i: {"key": "k%d" % i, "kind": "plain", "type": 0x10, "data": 100000 + i} for i in range(n) if form != "sparse" or i % 3 != 1}
+    model = [(0x7F, "com.big", [{"name": "integer", "entry_count": n, "configs": [{"config": {}, "entries": entries, "form": form}]}])]
+    data = AW.table(model)
+    o = U.call(lambda: m.ARSCParser(data))
+    U.ensures("parses", o.ok, exc=repr(o.exc)[:300])
+    if not o.ok:
+        return
+    p = o.value
+    bad = []
+    for i in list(range(0, 4)) + list(range(8185, 8200)) + list(range(n - 3, n)) + list(range(0, n, 97)):
+        got = U.call(p.get_res_configs, 0x7F010000 | i)
+        if i not in entries:
+            if not (got.ok and got.value == []):
+                bad.append((i, "absent id resolves to something"))
+            continue
+        if not got.ok or len(got.value) != 1:
+            bad.append((i, repr(got.exc or len(got.value))))
+            continue
+        ate = got.value[0][1]
+        if ate.get_value() != "k%d" % i or (ate.key.get_data_type(), ate.key.get_data()) != (0x10, 100000 + i):
+            bad.append((i, ate.get_value(), ate.key.get_data()))
+    U.ensures("every sampled id resolves to its own entry (key name, type, data), also beyond the first 128 KiB of entry data",
+              not bad, bad=bad[:5])
+
+
+large_type_chunk.enumerate_inputs = lambda tier, **p: iter([{}])
